@@ -224,10 +224,19 @@ def read_fallbacks(ctx):
             if 'self.possible_children_names' in txt and isinstance(t.ast, ast.Compare) and isinstance(t.ast.ops[0], ast.In):
                 poss = True
     res.check(decl, 'R-TABLE.read', f.fq, "a declared but unset attribute reads as None", key='R-TABLE.read|declared')
-    res.check(poss, 'R-TABLE.read', f.fq, "a possible but absent child reads as None", key='R-TABLE.read|possible-child')
+    forelse = any(isinstance(n, ast.For) and n.orelse and unparse(n.iter).startswith('self.get_children(') for n in ast.walk(f.node))
+    if not forelse:
+        res.check(poss, 'R-TABLE.read', f.fq, "a possible but absent child reads as None", key='R-TABLE.read|possible-child')
     # 3. child present
     child_rets = [r for r in rets if isinstance(r.ast.value, ast.Name) and any(t.kind == 'for' and unparse(t.stmt.target) == r.ast.value.id and
                                                                               unparse(t.stmt.iter).startswith('self.get_children(') for t, lab in dom.guards_of(g, r))]
+    if not child_rets and forelse:
+        # the search is written as `for ... break / else: x = None` followed by one `return x` for both outcomes (a search helper returning the child or
+        # None): which value is returned under which condition is not tabulated by this rule.  Say so, unless something decided above is already wrong.
+        if not any(o.status == 'violated' and o.rule == 'R-TABLE.read' for o in res.obligations):
+            raise AnalysisError(f"{f.fq}: the search among the present children is a for/else whose result is returned by one statement for both outcomes; "
+                                "the read table is not tabulated for this form (idiom not understood)")
+        return
     ok = False
     for r in child_rets:
         for t, lab in dom.guards_of(g, r):
